@@ -107,6 +107,8 @@ class Z3Conv:
             return self._store(c(a[0]), [self._idx(i) for i in a[1]], c(a[2]), a[0].sort[-1])
         if op == "constarr":
             return z3.K(self.sort(t.sort).domain(), c(a[0]))
+        if op == "app" and a[0] == "emod2":
+            return c(a[1]) % 2
         if op == "app":
             name, args = a[0], a[1:]
             key = (name, tuple(x.sort for x in args), t.sort)
